@@ -20,6 +20,45 @@ use serde_json::{json, Value};
 
 pub const VERIF_ROOT: &str = "/verif";
 
+static OUT_FD: std::sync::atomic::AtomicI32 = std::sync::atomic::AtomicI32::new(1);
+
+/// Programs under test print their `msg!` logs straight to stdout on the host. Move the real stdout
+/// to a private descriptor and point fd 1 at /dev/null so that only the harness' own lines are seen.
+pub fn capture_stdout() {
+    if std::env::var("VERIF_SHOW_LOGS").is_ok() {
+        return;
+    }
+    // SAFETY: plain POSIX descriptor juggling at process start, before any threads exist.
+    unsafe {
+        let saved = libc::dup(1);
+        if saved < 0 {
+            return;
+        }
+        let null = libc::open(c"/dev/null".as_ptr(), libc::O_WRONLY);
+        if null >= 0 {
+            libc::dup2(null, 1);
+            libc::close(null);
+            OUT_FD.store(saved, std::sync::atomic::Ordering::SeqCst);
+        }
+    }
+}
+
+/// Print one line on the real stdout.
+pub fn out(line: &str) {
+    let fd = OUT_FD.load(std::sync::atomic::Ordering::SeqCst);
+    let mut buf = line.as_bytes().to_vec();
+    buf.push(b'\n');
+    let mut off = 0;
+    while off < buf.len() {
+        // SAFETY: writing a valid buffer to an open descriptor.
+        let n = unsafe { libc::write(fd, buf[off..].as_ptr() as *const libc::c_void, buf.len() - off) };
+        if n <= 0 {
+            break;
+        }
+        off += n as usize;
+    }
+}
+
 #[derive(Clone, Copy, PartialEq, Eq, Debug)]
 pub enum Tier {
     Quick,
@@ -606,7 +645,7 @@ impl Ctx {
     pub fn finish(self) -> i32 {
         let wall = self.start.elapsed().as_secs_f64();
         for l in &self.known_lines {
-            println!("{l}");
+            out(l);
         }
         let mut coverage = serde_json::Map::new();
         coverage.insert("evaluations".into(), json!(self.evaluations));
@@ -649,18 +688,18 @@ impl Ctx {
         }
         if !self.violations.is_empty() {
             for v in &self.violations {
-                println!("VIOLATION property={} replay={}", self.id, v.replay);
+                out(&format!("VIOLATION property={} replay={}", self.id, v.replay));
                 eprintln!("  [{}] {}", v.check, truncate(v.message.clone(), 2000));
             }
             return 1;
         }
         if !self.inconclusive.is_empty() {
             for i in &self.inconclusive {
-                println!("INCONCLUSIVE property={} {}", self.id, i);
+                out(&format!("INCONCLUSIVE property={} {}", self.id, i));
             }
             return 2;
         }
-        println!(
+        out(&format!(
             "OK property={} tier={} seed={} evaluations={} distinct_nontrivial={} wall_s={:.1}",
             self.id,
             self.tier.as_str(),
@@ -668,7 +707,7 @@ impl Ctx {
             self.evaluations,
             self.nontrivial.len(),
             wall
-        );
+        ));
         0
     }
 }
